@@ -307,12 +307,21 @@ def run_shard(shard, rec, tier, seed):
         T = case["truth"]["tempos"]
         far = max([0] + [t for t, _ in T] + all_event_ticks(base.chart)) + 1000
         # the healthy chart answers the same ticks first and is then dropped (a stale per-object memo would survive it)
-        for q in (far, far + 1, far + 10**6):
-            base.chart.sync_track.bpm_events.timestamp_at_tick_no_optimize_return(q)
-            base.chart.sync_track.bpm_events.timestamp_at_tick(q)
-        del base
+        # (three rounds: which dead object's address the next chart's objects land on is the allocator's business; more rounds, more
+        # of the histories in which a table keyed by a dead object's identity would answer for the new one)
         lines = sync_lines(case["truth"]) + [f"  {far} = B 0"]
-        judge_fault(rec, "zero_B", "last", len(T), rebuild(case, lines), far, case["truth"])
+        for rnd in range(3):
+            if rnd:
+                base = harness.parse(case["text"])
+                if not base.ok:
+                    break
+            for q in (far, far + 1, far + 10**6):
+                base.chart.sync_track.bpm_events.timestamp_at_tick_no_optimize_return(q)
+                base.chart.sync_track.bpm_events.timestamp_at_tick(q)
+            del base
+            judge_fault(rec, "zero_B", "last", len(T), rebuild(case, lines), far, case["truth"])
+            if rec.full:
+                break
         # trailing zero tempo placed so that ONLY notes (no other event kind) lie under it
         note_ticks = sorted(g["tick"] for tr in case["truth"]["tracks"].values() for g in tr["groups"])
         others = [t for t in written_event_ticks({"timesigs": case["truth"]["timesigs"], "globals": case["truth"]["globals"],
